@@ -35,8 +35,16 @@ class C10Stream(A.ActorStream):
             V("stop: a stop()/wait()/run() call had not returned 60 s after every actor was stopped")
         # ---- per loop task: restart policy
         loops = {}     # tid -> dict
+        fin_at = {}    # tid -> (log index, time) at which the task finished
+        owner = {}     # tid -> (actor, log index of creation)
         for i, e in enumerate(log):
             k = e[1]
+            if k == "add":
+                owner[e[3]] = (e[2], i)
+            elif k == "xdone":
+                fin_at[e[2]] = (i, e[0])
+            elif k == "start" and e[4]:
+                owner[e[3]] = (e[2], i)
             if k == "start" and e[4]:
                 loops[e[3]] = {"a": e[2], "t0": e[0], "enter": [], "exit": [], "dc": False, "last": "created"}
             elif k == "enter":
@@ -64,12 +72,15 @@ class C10Stream(A.ActorStream):
                     L["last"] = "failed" if (lim is None or nexc <= lim) else "limit"
                 else:
                     L["last"] = "final"
+                if L["last"] != "failed":
+                    fin_at[e[2]] = (i, e[0])
             elif k == "delaycancel":
                 L = loops[e[2]]
                 if L["last"] not in ("created", "failed"):
                     V(f"harness: loop task {e[2]} ended outside _run in state {L['last']}")
                 L["dc"] = True
                 L["last"] = "cancelled-in-delay"
+                fin_at[e[2]] = (i, e[0])
         # at most one invocation of one actor at a time, over all its loop tasks
         active = {}
         for e in log:
@@ -156,6 +167,28 @@ class C10Stream(A.ActorStream):
                       f"t={max(x[1][0] for x in wr)}us")
             elif all(x is not None for x in wr) and not obs["hung"]:
                 V(f"run: every actor of run() over {b[3]} finished but run() did not return")
+            # independent of what run() itself chose to wait on: the tasks of the actors it was GIVEN
+            # (actors are told apart by identity -- names and classes may coincide)
+            bi = log.index(b)
+            ci = log.index(calls[rid]) if rid in calls else bi
+            sel = set(b[3])
+            T = sorted(t for t, (a, c) in owner.items() if a in sel and c < ci and not (t in fin_at and fin_at[t][0] < ci))
+            end_i = runrets[rid][0] if rid in runrets else len(log)
+            later = any(a in sel and ci < c < end_i for t, (a, c) in owner.items())
+            names = [case["actors"][a].get("name", f"probe{a}") for a in b[3]]
+            if rid in runrets:
+                i, e = runrets[rid]
+                unfinished = [t for t in T if t not in fin_at or fin_at[t][0] > i]
+                if unfinished:
+                    who = sorted({owner[t][0] for t in unfinished})
+                    V(f"run: run() over actors {b[3]} (names {names}) returned at t={e[0]}us while tasks {unfinished} of "
+                      f"actor(s) {who} were still running")
+                elif not later:
+                    last = max([fin_at[t][1] for t in T] + [log[ci][0]])
+                    if e[0] != last:
+                        V(f"run: run() over actors {b[3]} returned at t={e[0]}us, the last of their tasks finished at t={last}us")
+            elif not later and all(t in fin_at for t in T) and not obs["hung"]:
+                V(f"run: every task of the actors {b[3]} given to run() finished but run() did not return")
         return out
 
 
